@@ -1,3 +1,6 @@
 import BalmProofs.Props.C09
 #print axioms Balm.siphon_iff_trapspace
 #print axioms Balm.faithful_of_covers
+#print axioms Balm.Impl.mem_solveRef_min
+#print axioms Balm.Impl.mem_solveRef_fix
+#print axioms Balm.Impl.mem_reducedFixedPoints
